@@ -394,5 +394,5 @@ func init() {
 			p.Stall = 0
 			return p
 		}})
-	plans["C16"] = []string{"c16-usage"}
+	plans["C16"] = []string{"c16-usage", "c16-overlap"}
 }
